@@ -127,6 +127,16 @@ def check_code(ctx, name, rng, crosscheck=True):
             if core.gt(np.abs(m - want_m).max(), 1e-9):
                 bad('knill_laflamme_inner_product', '<i|E|j> differs from c_E delta_ij decided by the specification for E=' + ''.join(LET[c] for c in lt), dict(error=lt, ce=ce))
         ctx.traces += len(errs)
+        # the loss the variational search minimises is a second route to the same conditions: it vanishes on a code (both norms, both backends)
+        import torch
+        for kind in ('L1', 'L2'):
+            l0 = float(numqi.qec.knill_laflamme_loss(ip, kind))
+            l1 = float(numqi.qec.knill_laflamme_loss(torch.tensor(ip), kind))
+            if core.gt(abs(l0), 1e-8) or core.gt(abs(l1), 1e-8):
+                bad('knill_laflamme_loss', 'the %s loss of a code that satisfies Knill-Laflamme is %.3g (torch %.3g), not zero' % (kind, l0, l1))
+        cs = np.asarray(numqi.qec.check_stabilizer(code['stabilizer'], code_np))
+        if cs.shape != (K, len(code['stabilizer'])) or core.gt(np.abs(cs - 1).max(), 1e-9):
+            bad('check_stabilizer', 'expectation values of the shipped stabilizer circuits on the code words are not all +1')
         # (5) shipped stabilizer circuits implement the listed strings
         for s, circ in zip(listed, code['stabilizer']):
             ctx.case(('stabcirc', name, s))
